@@ -28,13 +28,34 @@
   the hosts dsh() walks / wcoll_expand shifts out   iter_all(_repaired), shift_all
   coalescing push keeps sequence and count          pushRange_hosts, nhosts_eq, pushList_hosts
 
-  NOT PROVED (correspondence + oracle only, checks/c01.py): the same expressions in `-x` and in
-  WCOLL / `^file` lines (the file reader and the exclusion path are C10's / C02's models; C01's
-  check runs pinned and generated cases of both contexts against `expand₂` on the real pdsh and
-  looks every name of an expansion up by name in the list the real `hostlist_create` built);
-  `cli_targets` and `text_expand₂` keep the hypothesis that every number fits the buffer
-  `hostrange_shift` allocates (`ShiftFits`: true of every record whose number has at most
-  width+15 digits; a chain of coalesced ranges over > 10^15 hosts would be needed to break it);
+  EVERY TEXT (no well-formedness hypothesis): the list      create_text (hosts = the independent reader's
+   `hostlist_create` returns denotes the spec's expansion    `Spec.classify s`.hosts₁; C15.create_iff_classify
+                                                             says exactly which texts are accepted)
+  EVERY TEXT, second level: `hostlist_create` then          expand_text (hosts = `Spec.classify s`.hosts₂ when
+   `wcoll_expand`; what `dsh()` then walks                   the spec finds no problem at either level), walk_text
+  EVERY `-w ARG` TEXT through the real path (`list_split`,  cli_text (= hosts₂ of the argument text)
+   `wcoll_arg_process`, per-word push, `wcoll_expand`)
+  `ShiftFits` (buffer of `hostrange_shift`) DISCHARGED     create_shift_fits, cli_shift_fits (every text of at
+   under a bound on the text length                          most 10^15/16384 ≈ 6·10^10 bytes),
+                                                             shift_fits_violation (which lists violate it: one
+                                                             record over > 10^15 numbers), text_expand₂_bounded,
+                                                             cli_targets_bounded (= expand₂, NO `hf` hypothesis)
+  "in -x": `pdsh -w W -x X` from the two TEXTS             w_x_from_texts (= expand₂ W minus the names of
+                                                             expand₁ X; through C02's exclusion model)
+  "in WCOLL / ^file lines"                                  wfile_from_texts, options_from_texts (any mix of
+                                                             words and ^files in -w and -x, WCOLL; through C10's
+                                                             reader ∘ C02 ∘ C01 = C10.target_list_end_to_end)
+  look-up by name                                           find_of_text (`hostlist_find` = index of the first
+                                                             occurrence in the spec's expansion, -1 iff absent)
+
+  NOT PROVED: the -x / ^file theorems hold inside the decidable domain `Targets.targetDomain` of
+  C10 ∘ C02 ∘ C01's end-to-end theorem (exclusion names with digit tails ≤ 2^25 — beyond: open
+  finding F01-X-BIGSUFFIX —, readable files of well-formed words); `find_of_text` likewise needs
+  `SmallName`; `cli_text` asks that the only white space in the argument is blank / tab (a
+  comma-word starting with \n \v \f \r loses it in `wcoll_arg_process` but not in
+  `hostlist_create`) and that the comma-words are plain target words; when the spec DOES find a
+  second-level problem the outcome (exit, or a name silently dropped for > 10240 ranges) is
+  correspondence only;
   words with `:` / `@` / leading `-` `^` `/` are other options' syntax (C02, C09, C10).
 -/
 import PdshVerif.Hostlist.Lemmas
@@ -45,6 +66,11 @@ import PdshVerif.Hostlist.LemmasTok
 import PdshVerif.Hostlist.LemmasShift
 import PdshVerif.Hostlist.LemmasExpand
 import PdshVerif.Hostlist.LemmasCli
+import PdshVerif.Hostlist.LemmasClassify
+import PdshVerif.Hostlist.LemmasClassify2
+import PdshVerif.Hostlist.LemmasShiftFits
+import PdshVerif.Hostlist.LemmasContexts
+import PdshVerif.Hostlist.LemmasFindText
 
 namespace PdshVerif.C01
 open PdshVerif.Hostlist PdshVerif.Gen
@@ -261,6 +287,167 @@ theorem shift_crash_witness :
     shiftCrashes (shift ⟨#[HRange.mk' ['a'] (ULONG_MAX - 1) ULONG_MAX 20], 2⟩).2 = true := by
   decide
 
+/-! ## every text; `ShiftFits` discharged; the other contexts; look-up by name -/
+
+/-- EVERY TEXT.  Whatever byte string `hostlist_create` accepts (which ones: C15.create_iff_classify),
+    the list it returns is well formed and denotes exactly the expansion the independent reader
+    `Spec.classify` computes from the text: every word in the order written, prefix + each number
+    of each range (width of the low bound as typed, repeats kept) + the rest of the word verbatim -/
+theorem create_text (cfg : Cfg) (h15 : cfg.fixUlongMax = true) (h16 : cfg.fixDigits = true)
+    (h18 : cfg.fixCurTok = true) (h22 : cfg.fixSuffixBal = true) (h23 : cfg.fixHostBuf = true)
+    (s : Str) (h : HL) (hc : create cfg s = .ok h) :
+    h.Good ∧ h.hosts = Spec.expandStr₁ s ∧ h.count = (Spec.expandStr₁ s).length :=
+  create_hosts_classify cfg h15 h16 h18 h22 h23 s h hc
+
+/-- EVERY TEXT, SECOND LEVEL.  Whatever byte string `hostlist_create` accepted: if the independent
+    reader finds no problem in the first-level names either (`problems₂`) and no bound of a range
+    within the limits reaches 2^64-1 (`note64`), `wcoll_expand` (shift every host out, push it
+    again as an expression of its own) leaves a well-formed list that denotes exactly the spec's
+    FULL expansion `hosts₂` — a second pair of brackets expanded for every name of the first, in
+    order, plain names unchanged.  (`hlen`: the text is at most 10^15/16384 bytes, which gives
+    `ShiftFits`.) -/
+theorem expand_text (cfg : Cfg) (h15 : cfg.fixUlongMax = true) (h16 : cfg.fixDigits = true)
+    (h18 : cfg.fixCurTok = true) (h22 : cfg.fixSuffixBal = true) (h23 : cfg.fixHostBuf = true)
+    (s : Str) (h : HL) (hc : create cfg s = .ok h) (hlen : MAX_RANGE * s.length ≤ 10 ^ 15)
+    (hp2 : (Spec.classify s).problems₂ = []) (h64 : (Spec.classify s).note64 = false) :
+    ∃ h', wcollExpand cfg h = .ok h' ∧ h'.Good ∧ h'.hosts = Spec.expandStr₂ s :=
+  Hostlist.expand_text cfg h15 h16 h18 h22 h23 s h hc hlen hp2 h64
+
+/-- EVERY TEXT, WHAT `dsh()` WALKS: under the hypotheses of `expand_text` (and D17 repaired) the
+    iterator over the working collective (`hostlist_next` until NULL) hands out exactly the spec's
+    full expansion of the text, in order, and then stops -/
+theorem walk_text (cfg : Cfg) (h15 : cfg.fixUlongMax = true) (h16 : cfg.fixDigits = true)
+    (h17 : cfg.fixIterSuffix = true)
+    (h18 : cfg.fixCurTok = true) (h22 : cfg.fixSuffixBal = true) (h23 : cfg.fixHostBuf = true)
+    (s : Str) (h : HL) (hc : create cfg s = .ok h) (hlen : MAX_RANGE * s.length ≤ 10 ^ 15)
+    (hp2 : (Spec.classify s).problems₂ = []) (h64 : (Spec.classify s).note64 = false)
+    (n : Nat) (hn : (Spec.expandStr₂ s).length ≤ n) :
+    ∃ h', wcollExpand cfg h = .ok h' ∧ iterAll cfg h' n = Spec.expandStr₂ s := by
+  obtain ⟨h', e, g, hh⟩ := expand_text cfg h15 h16 h18 h22 h23 s h hc hlen hp2 h64
+  refine ⟨h', e, ?_⟩
+  rw [iter_all_repaired cfg h17 h' g n (by rw [hh]; exact hn), hh]
+
+/-- EVERY `-w ARGUMENT`, THE WHOLE PATH: split.c `list_split`, opt.c `wcoll_arg_process` (leading
+    `isspace` skipped), `hostlist_push` of every comma-word, `wcoll_expand`.  `hpl`: the comma-words
+    are plain target words (no `:` `@`, no leading `-` `^` `/`: other options' syntax); `hsp`: the
+    only white space in the argument is blank / tab.  If the independent reader finds no problem
+    at either level and no bound reaches 2^64-1, the working collective denotes exactly the spec's
+    full expansion of the ARGUMENT TEXT — no AST, no well-formedness hypothesis on the text. -/
+theorem cli_text (cfg : Cfg) (h15 : cfg.fixUlongMax = true) (h16 : cfg.fixDigits = true)
+    (h18 : cfg.fixCurTok = true) (h22 : cfg.fixSuffixBal = true) (h23 : cfg.fixHostBuf = true)
+    (arg : Str) (hpl : ∀ cw ∈ tokens [','] arg, plainWord cw = true)
+    (hsp : ∀ c ∈ arg, isSpace c = true → isSep hlSep c = true)
+    (hlen : MAX_RANGE * arg.length ≤ 10 ^ 15)
+    (h0 : (Spec.classify arg).problems = []) (hp2 : (Spec.classify arg).problems₂ = [])
+    (h64 : (Spec.classify arg).note64 = false) :
+    ∃ h', cliTargets cfg arg = .ok (some h') ∧ h'.Good ∧ h'.hosts = Spec.expandStr₂ arg :=
+  cliTargets_text cfg h15 h16 h18 h22 h23 arg hpl hsp hlen h0 hp2 h64
+
+/-- `ShiftFits` DISCHARGED: every record of every list `hostlist_create` builds from a text of at
+    most 10^15/16384 (≈ 6.1·10^10) bytes fits the buffer `hostrange_shift` allocates
+    (argv strings are ≤ 128 KiB, WCOLL lines ≤ 2 KiB) -/
+theorem create_shift_fits (cfg : Cfg) (h15 : cfg.fixUlongMax = true) (h16 : cfg.fixDigits = true)
+    (s : Str) (h : HL) (hc : create cfg s = .ok h) (hlen : MAX_RANGE * s.length ≤ 10 ^ 15) :
+    ∀ r ∈ h.ranges.toList, r.ShiftFits :=
+  create_shiftFits cfg h15 h16 s h hc hlen
+
+/-- the same for the working collective of `-w ARG` (what `wcoll_expand` shifts) -/
+theorem cli_shift_fits (cfg : Cfg) (h15 : cfg.fixUlongMax = true) (h16 : cfg.fixDigits = true)
+    (arg : Str) (h : HL) (hp : cliPushWords cfg HL.new (tokens [','] arg) = .ok (some h))
+    (hlen : MAX_RANGE * arg.length ≤ 10 ^ 15) : h.Good ∧ ∀ r ∈ h.ranges.toList, r.ShiftFits :=
+  cli_shiftFits cfg h15 h16 arg h hp hlen
+
+/-- PRECISELY WHICH LISTS VIOLATE `ShiftFits`: among the well-formed lists whose widths cover their
+    low bounds (`Tight`: all the parser builds, `create_tight`) only those with ONE record spanning
+    at least 10^15 numbers — more than 10^15 hosts, a chain of > 6·10^10 coalescing ranges -/
+theorem shift_fits_violation (h : HL) (hg : h.Good) (ht : h.Tight) (r : HRange)
+    (hr : r ∈ h.ranges.toList) (hv : ¬ r.ShiftFits) :
+    r.single = false ∧ 10 ^ 15 ≤ r.hi - r.lo ∧ 10 ^ 15 < h.hosts.length :=
+  shiftFits_violation_needs h hg ht r hr hv
+
+/-- TEXT TO TARGETS without the `ShiftFits` hypothesis (D15/D25, D16 repaired; text ≤ 6·10^10 bytes) -/
+theorem text_expand₂_bounded (cfg : Cfg) (h15 : cfg.fixUlongMax = true) (h16 : cfg.fixDigits = true)
+    (lead : Str) (items : List (Spec.Word × Str))
+    (hl : lead.all Spec.sepChar = true) (hok : Spec.sepsOK items = true)
+    (hw : ∀ p ∈ items, p.1.WF = true) (hd : ∀ p ∈ items, wordDom cfg p.1)
+    (hd2 : ∀ p ∈ items, ∀ w' ∈ reword p.1, wordDom cfg w')
+    (hlen : MAX_RANGE * (Spec.render lead items).length ≤ 10 ^ 15) :
+    ∃ h h', create cfg (Spec.render lead items) = .ok h ∧ wcollExpand cfg h = .ok h' ∧ h'.Good ∧
+      h'.hosts = Spec.expand₂ (items.map (·.1)) :=
+  text_expand₂ cfg lead items hl hok hw hd hd2
+    (fun h hc => create_shiftFits cfg h15 h16 _ h hc hlen)
+
+/-- THE WHOLE `-w ARG` PATH without the `ShiftFits` hypothesis: `cli_targets` for every argument of
+    at most 6·10^10 bytes -/
+theorem cli_targets_bounded (cfg : Cfg) (h15 : cfg.fixUlongMax = true) (h16 : cfg.fixDigits = true)
+    (lead : Str) (items : List (Spec.Word × Str))
+    (hl : lead.all Spec.sepChar = true) (hok : Spec.sepsOK items = true)
+    (hw : ∀ p ∈ items, p.1.WF = true) (hd : ∀ p ∈ items, wordDom cfg p.1)
+    (hcl : ∀ p ∈ items, cliWord p.1)
+    (hd2 : ∀ p ∈ items, ∀ w' ∈ reword p.1, wordDom cfg w')
+    (hlen : MAX_RANGE * (Spec.render lead items).length ≤ 10 ^ 15) :
+    ∃ h', cliTargets cfg (Spec.render lead items) = .ok (some h') ∧ h'.Good ∧
+      h'.hosts = Spec.expand₂ (items.map (·.1)) :=
+  cli_targets cfg lead items hl hok hw hd hcl hd2
+    (fun h hp => (cli_shiftFits cfg h15 h16 _ h hp hlen).2)
+
+open PdshVerif.Opt PdshVerif.Opt.Exclude PdshVerif.Opt.Targets in
+/-- THE `-x` CONTEXT, FROM THE TEXTS: `pdsh -w W -x X` (W, X: words joined by commas; W well
+    formed, one or two pairs of brackets) goes on with exactly expansion(W) minus the names of
+    expansion(X): `list_split` of both option texts, `wcoll_arg_process` word by word,
+    `hostlist_create`, `wcoll_expand`, `wcoll_apply_excluded` (C02's model, D1/D17/D19/F02-2BR
+    repaired = /repo HEAD).  `hdom`: the decidable domain of C10 ∘ C02 ∘ C01's end-to-end theorem -/
+theorem w_x_from_texts (cfg : Cfg) (hD1 : cfg.fixDeleteAll = true) (hD17 : cfg.fixIterSuffix = true)
+    (hD19 : cfg.fixRemoveDepth = true) (h2Br : cfg.fix2Br = true) (W X : List Spec.Word)
+    (hW : ∀ w ∈ W, w.WF = true) (hne : W ≠ [])
+    (hpX : ∀ w ∈ X, Wcoll.pieceOK (Spec.renderWord w) = true)
+    (hd : Spec.joinComma (W.map Spec.renderWord) ≠ ['-'])
+    (hdom : targetDomain cfg .whole [] (fun _ _ => none) (fun _ => false) (wSegs W ++ xSegs X) none = true) :
+    cliFinal cfg (envOf .whole [] (fun _ _ => none) (fun _ => false) (wSegs W ++ xSegs X) none)
+        [.w (Spec.joinComma (W.map Spec.renderWord)), .x (Spec.joinComma (X.map Spec.renderWord))] =
+      .ok ((Spec.expand₂ W).filter fun h => !(Spec.expand₁ X).contains h) :=
+  Hostlist.w_x_from_texts cfg hD1 hD17 hD19 h2Br W X hW hne hpX hd hdom
+
+open PdshVerif.Opt PdshVerif.Opt.Exclude PdshVerif.Opt.Targets in
+/-- THE FILE CONTEXT, FROM THE TEXTS: `pdsh -w ^PATH -x X` — the words C10's reader finds in the
+    file (includes inlined) expand exactly like `-w` words -/
+theorem wfile_from_texts (cfg : Cfg) (hD1 : cfg.fixDeleteAll = true) (hD17 : cfg.fixIterSuffix = true)
+    (hD19 : cfg.fixRemoveDepth = true) (h2Br : cfg.fix2Br = true) (mode : Wcoll.LineMode) (fs : Wcoll.FS)
+    (path : Str) (ws X : List Spec.Word) (hpp : Wcoll.pieceOK ('^' :: path) = true)
+    (hpX : ∀ w ∈ X, Wcoll.pieceOK (Spec.renderWord w) = true)
+    (hdom : targetDomain cfg mode fs (fun _ _ => none) (fun _ => false) ([Seg.tfile path ws] ++ xSegs X) none = true) :
+    cliFinal cfg (envOf mode fs (fun _ _ => none) (fun _ => false) ([Seg.tfile path ws] ++ xSegs X) none)
+        [.w ('^' :: path), .x (Spec.joinComma (X.map Spec.renderWord))] =
+      .ok ((Spec.expand₂ ws).filter fun h => !(Spec.expand₁ X).contains h) :=
+  Hostlist.wfile_from_texts cfg hD1 hD17 hD19 h2Br mode fs path ws X hpp hpX hdom
+
+open PdshVerif.Opt PdshVerif.Opt.Exclude PdshVerif.Opt.Targets in
+/-- ALL CONTEXTS AT ONCE, FROM THE TEXTS: `-w` naming any mix of words and `^file`s, `-x` any mix
+    of words and `^file`s, WCOLL: targets in source order (files' words inlined) fully expanded,
+    minus every excluded name, filtered -/
+theorem options_from_texts (cfg : Cfg) (hD1 : cfg.fixDeleteAll = true) (hD17 : cfg.fixIterSuffix = true)
+    (hD19 : cfg.fixRemoveDepth = true) (h2Br : cfg.fix2Br = true) (mode : Wcoll.LineMode) (fs : Wcoll.FS)
+    (rematch : Str → Str → Option Bool) (badre : Str → Bool) (segsW segsX : List Seg)
+    (wenv : Option (Str × List Spec.Word))
+    (hX : ∀ s ∈ segsX, segIsX s = true)
+    (hpW : ∀ s ∈ segsW, Wcoll.pieceOK s.text = true) (hpX : ∀ s ∈ segsX, Wcoll.pieceOK (segXText s) = true)
+    (hd : Spec.joinComma (segsW.map Seg.text) ≠ ['-'])
+    (hdom : targetDomain cfg mode fs rematch badre (segsW ++ segsX) wenv = true) :
+    cliFinalW cfg (envOf mode fs rematch badre (segsW ++ segsX) wenv) (wenv.map (·.1))
+        [.w (Spec.joinComma (segsW.map Seg.text)), .x (Spec.joinComma (segsX.map segXText))] =
+      .ok (targetSpec (envOf mode fs rematch badre (segsW ++ segsX) wenv) (segsW ++ segsX) wenv) :=
+  Hostlist.options_from_texts cfg hD1 hD17 hD19 h2Br mode fs rematch badre segsW segsX wenv hX hpW hpX hd hdom
+
+/-- LOOK-UP BY NAME: in the list built from ANY accepted text, `hostlist_find(name)` answers the
+    index of the FIRST occurrence of `name` in the spec's expansion of the text, and -1 exactly
+    when `name` is not in it (`SmallName`: trailing digit run ≤ 2^25; beyond: F16-BIGSUFFIX) -/
+theorem find_of_text (cfg : Cfg) (h15 : cfg.fixUlongMax = true) (h16 : cfg.fixDigits = true)
+    (h18 : cfg.fixCurTok = true) (h22 : cfg.fixSuffixBal = true) (h23 : cfg.fixHostBuf = true)
+    (s : Str) (h : HL) (hc : create cfg s = .ok h) (name : Str) (hsm : SmallName name) :
+    (find h name).1 =
+      if name ∈ Spec.expandStr₁ s then some ((Spec.expandStr₁ s).idxOf name) else none :=
+  Hostlist.find_of_text cfg h15 h16 h18 h22 h23 s h hc name hsm
+
 end PdshVerif.C01
 
 /-! non-vacuity: a concrete well-formed expression inside the domain of `create_words`,
@@ -309,4 +496,53 @@ example : ∃ h', cliTargets Cfg.unchanged (render [] exampleItems) = .ok (some 
       exact key)
   exact ⟨h', a, c⟩
 example : tokens [','] "a b, c[1,2] d".toList = ["a b".toList, " c[1,2] d".toList] := by decide
+/-- non-vacuity of `cli_targets_bounded` (no `ShiftFits` hypothesis left) -/
+example : ∃ h', cliTargets Cfg.repaired (render [] exampleItems) = .ok (some h') ∧
+    h'.hosts = expand₂ exampleExpr := by
+  obtain ⟨h', a, _, c⟩ := PdshVerif.C01.cli_targets_bounded Cfg.repaired rfl rfl [] exampleItems
+    (by decide) (by decide) (by decide) (by decide) (by decide) (by decide) (by decide)
+  exact ⟨h', a, c⟩
+/-- non-vacuity of `create_text` and `find_of_text`: an arbitrary text, through the theorems -/
+example : ∃ h, create Cfg.repaired "n[08-10]-ib  n9-ib".toList = .ok h ∧
+    h.hosts = ["n08-ib".toList, "n09-ib".toList, "n10-ib".toList, "n9-ib".toList] ∧
+    (find h "n9-ib".toList).1 = some 3 ∧ (find h "n8-ib".toList).1 = none := by
+  obtain ⟨h, hc⟩ := (PdshVerif.Hostlist.create_iff_classify Cfg.repaired rfl rfl rfl rfl
+    "n[08-10]-ib  n9-ib".toList).mpr (by decide)
+  have ht := PdshVerif.C01.create_text Cfg.repaired rfl rfl rfl rfl rfl _ h hc
+  refine ⟨h, hc, by rw [ht.2.1]; decide, ?_, ?_⟩
+  · rw [PdshVerif.C01.find_of_text Cfg.repaired rfl rfl rfl rfl rfl _ h hc _ (by unfold SmallName; decide)]
+    decide
+  · rw [PdshVerif.C01.find_of_text Cfg.repaired rfl rfl rfl rfl rfl _ h hc _ (by unfold SmallName; decide)]
+    decide
+/-- non-vacuity of `expand_text`: an arbitrary text (blank/comma runs, padding, a second pair of
+    brackets), through the theorems -/
+example : ∃ h h', create Cfg.repaired " r[1-2]n[08-09],,x7 ".toList = .ok h ∧
+    wcollExpand Cfg.repaired h = .ok h' ∧
+    h'.hosts = ["r1n08".toList, "r1n09".toList, "r2n08".toList, "r2n09".toList, "x7".toList] := by
+  obtain ⟨h, hc⟩ := (PdshVerif.Hostlist.create_iff_classify Cfg.repaired rfl rfl rfl rfl
+    " r[1-2]n[08-09],,x7 ".toList).mpr (by decide)
+  obtain ⟨h', e, _, hh⟩ := PdshVerif.C01.expand_text Cfg.repaired rfl rfl rfl rfl rfl _ h hc
+    (by decide) (by decide) (by decide)
+  exact ⟨h, h', hc, e, by rw [hh]; decide⟩
+/-- non-vacuity of `cli_text`: the argument text of `-w ' r[1-2]n[08-09], x7'` through the whole
+    `-w` path (a comma-word that starts with a blank) -/
+example : ∃ h', cliTargets Cfg.repaired " r[1-2]n[08-09], x7".toList = .ok (some h') ∧
+    h'.hosts = ["r1n08".toList, "r1n09".toList, "r2n08".toList, "r2n09".toList, "x7".toList] := by
+  obtain ⟨h', e, _, hh⟩ := PdshVerif.C01.cli_text Cfg.repaired rfl rfl rfl rfl rfl
+    " r[1-2]n[08-09], x7".toList (by decide) (by decide) (by decide) (by decide) (by decide) (by decide)
+  exact ⟨h', e, by rw [hh]; decide⟩
+/-- non-vacuity of `w_x_from_texts`: `pdsh -w foo[1-2]-[0-1],bar -x foo1-0,bar` (a word with TWO
+    pairs of brackets; an exclusion that names a second-level host) goes on with foo1-1 foo2-0
+    foo2-1 — through the theorem, the domain decided -/
+def exW : List Word :=
+  [.br "foo".toList [⟨"1".toList, some "2".toList⟩] "-".toList (some ([⟨"0".toList, some "1".toList⟩], [])),
+   .plain "bar".toList]
+def exX : List Word := [.plain "foo1-0".toList, .plain "bar".toList]
+example : PdshVerif.Opt.Exclude.cliFinal Cfg.repaired
+    (PdshVerif.Opt.Targets.envOf .whole [] (fun _ _ => none) (fun _ => false) (wSegs exW ++ xSegs exX) none)
+    [.w "foo[1-2]-[0-1],bar".toList, .x "foo1-0,bar".toList] =
+    .ok ["foo1-1".toList, "foo2-0".toList, "foo2-1".toList] := by
+  have h := PdshVerif.C01.w_x_from_texts Cfg.repaired rfl rfl rfl rfl exW exX (by decide) (by decide)
+    (by decide) (by decide) (by decide)
+  exact h.trans (by decide)
 end Examples
